@@ -18,6 +18,28 @@ picks = [
  ("w_K4_float_display", first(lambda c: c["kind"].startswith("float") and c["meta"]["value"] == "8.407903850944054e17")),
  ("w_ok_escaped_quote", first(lambda c: c["kind"] == "directed-literal-escaped-quote-ok")),
  ("w_ok_param_sql", first(lambda c: c["kind"] == "directed-param-sql")),
+ # Json / Base64 fields: an assignment replaces the stored value
+ ("w_json_object_over_object", first(lambda c: c["kind"] == "directed-json-object-over-object")),
+ ("w_json_null_member", first(lambda c: c["kind"] == "directed-json-null-member")),
+ ("w_json_empty_over_object", first(lambda c: c["kind"] == "directed-json-empty-object-over-object")),
+ ("w_json_array_over_object", first(lambda c: c["kind"] == "directed-json-array-over-object")),
+ ("w_json_null_over_object", first(lambda c: c["kind"] == "directed-json-null-over-object")),
+ ("w_json_over_default", first(lambda c: c["kind"] == "directed-json-over-default")),
+ ("w_json_null_refused", first(lambda c: c["kind"] == "directed-json-null-refused")),
+ ("w_b64_empty", first(lambda c: c["kind"] == "base64" and c["meta"]["text"] == "")),
+ ("w_b64_noncanonical", first(lambda c: c["kind"] == "base64" and c["meta"]["text"] == "AB")),
+ ("w_b64_padded", first(lambda c: c["kind"] == "base64" and c["meta"]["text"] == "AA==")),
+ ("w_b64_urlsafe", first(lambda c: c["kind"] == "base64" and c["meta"]["text"] == "-_8")),
+ # aliases and search terms
+ ("w_alias_keyword", first(lambda c: c["kind"] == "alias" and c["meta"]["alias"] == "select")),
+ ("w_alias_dquote", first(lambda c: c["kind"] == "alias" and c["meta"]["alias"] == 'a"b')),
+ ("w_alias_space", first(lambda c: c["kind"] == "alias" and c["meta"]["alias"] == 'a b')),
+ ("w_search_plain", first(lambda c: c["kind"] == "search" and c["meta"]["term"] == "hello")),
+]
+# open class 5: the term reaches FTS5 as a query expression
+refuted = [
+ ("w_K5_search_quote", first(lambda c: c["kind"] == "search" and c["meta"]["term"] == 'hello"'), "[5]"),
+ ("w_K5_search_column", first(lambda c: c["kind"] == "search" and c["meta"]["term"] == 'name:hello'), "[5]"),
 ]
 out = ["(* C04Wit.v — closed witnesses: directed cases of harness/src/bin/c04.rs as Gallina terms, the model's verdict",
        "   checked by vm_compute.  The same cases are replayed on the real code on every run.",
@@ -27,6 +49,12 @@ for name, c in picks:
     out.append("(* %s : %s *)" % (c["kind"], json.dumps(c["meta"], ensure_ascii=True)[:300].replace("(*", "( *").replace("*)", "* )").replace('"', "'")))
     out.append("Definition %s : c04case := %s." % (name, c["coq"]))
     out.append("Lemma %s_holds : spec_C04 %s (run_C04 %s) = true /\\ known_C04 %s = []." % (name, name, name, name))
+    out.append("Proof. vm_compute. split; reflexivity. Qed.")
+    out.append("")
+for name, c, cls in refuted:
+    out.append("(* %s : %s *)" % (c["kind"], json.dumps(c["meta"], ensure_ascii=True)[:300].replace("(*", "( *").replace("*)", "* )").replace('"', "'")))
+    out.append("Definition %s : c04case := %s." % (name, c["coq"]))
+    out.append("Lemma %s_refuted : spec_C04 %s (run_C04 %s) = false /\\ known_C04 %s = %s." % (name, name, name, name, cls))
     out.append("Proof. vm_compute. split; reflexivity. Qed.")
     out.append("")
 open(os.path.join(ROOT, "coq/proofs/C04Wit.v"), "w").write("\n".join(out))
